@@ -5,7 +5,6 @@ import (
 
 	"github.com/Fantom-foundation/lachesis-base/common/bigendian"
 	"github.com/Fantom-foundation/lachesis-base/common/littleendian"
-	"github.com/Fantom-foundation/lachesis-base/hash"
 	"github.com/Fantom-foundation/lachesis-base/inter/idx"
 	"github.com/Fantom-foundation/lachesis-base/zzverif/sym"
 )
@@ -84,7 +83,17 @@ func VerifH_C32_eventID() {
 	e2, l2 := sym.U32("e2"), sym.U32("l2")
 	t1, t2 := verifTail("t1_"), verifTail("t2_")
 
+	// arbitrary pre-state: the mutable event may already carry any ID (e.g. a temporary one set with
+	// SetID under an earlier epoch / Lamport time, as abft's Build does)
 	m1 := &MutableBaseEvent{}
+	t0 := verifTail("t0_")
+	if sym.Bool("hadID") {
+		m1.SetEpoch(idx.Epoch(sym.U32("e0")))
+		m1.SetLamport(idx.Lamport(sym.U32("l0")))
+		m1.SetID(t0)
+		sym.Reach("rebuilt-after-SetID")
+	}
+	old := m1.ID()
 	m1.SetEpoch(idx.Epoch(e1))
 	m1.SetLamport(idx.Lamport(l1))
 	id1 := m1.Build(t1).ID()
@@ -98,7 +107,7 @@ func VerifH_C32_eventID() {
 	sym.Assert(id1.Epoch() == idx.Epoch(e1) && id1.Lamport() == idx.Lamport(l1), "Build: ID carries epoch and Lamport")
 	sym.Assert(id2.Epoch() == idx.Epoch(e2) && id2.Lamport() == idx.Lamport(l2), "SetID: ID carries epoch and Lamport")
 	sym.Assert(bytes.Equal(id1[8:], t1[:]) && bytes.Equal(id2[8:], t2[:]), "ID keeps the 24-byte tail")
-	sym.Assert(m1.ID() == (hash.Event{}), "Build does not modify the mutable event")
+	sym.Assert(m1.ID() == old, "Build does not modify the mutable event")
 
 	c := bytes.Compare(id1.Bytes(), id2.Bytes())
 	ct := bytes.Compare(t1[:], t2[:])
